@@ -15,8 +15,10 @@ import (
 func init() {
 	register("C05", "action lists over {cC,cS,cL (commit CAS), iS,iR (commit inject), jD,jT,jX (direct injects), rl,rc (run load/commit), dv (notifier)}: "+
 		"every list up to a fixed length (exhaustive) plus random lists to length 120, executed on the REAL supervisor with the load/store window "+
-		"opened through testHookAfterStateLoad, compared action by action with the Lean model; plus the kernel-checked counterexample schedules "+
-		"replayed on the real supervisor and property oracles (legal edges, notification chain, quiescent agreement, closed latch) evaluated on the "+
+		"opened through testHookAfterStateLoad, compared action by action with the Lean model (jD / jT go through the real tagging injectors: "+
+		"generation / dwell captured at the action); plus the named regression schedules (former counterexamples F7 / F7b and variants) "+
+		"replayed on the real supervisor and property oracles (legal edges, notification chain, quiescent agreement, closed latch, no effect of a "+
+		"disconnect of an earlier generation / of a T7 expiry reported before a later Select commit) evaluated on the "+
 		"implementation's own trace; distinct = distinct action list; non-trivial = contains at least one run step and one commit or inject", runC05)
 }
 
@@ -36,6 +38,22 @@ type supObs struct {
 	lastByRun []bool
 	pending   bool // a commit's inject is still outstanding at the end
 	badReact  string
+	gen       uint64 // the supervisor's generation / dwell counters at the end
+	dwell     uint64
+	// staleDisc / staleT7: the run goroutine's processing of a disconnect reported in an EARLIER TCP
+	// generation / of a T7 expiry reported BEFORE a later Select commit moved State() or fired a reaction.
+	// Judged with the harness's own bookkeeping (which generation / how many Select commits at the inject),
+	// not with the supervisor's counters.
+	staleDisc string
+	staleT7   string
+	mirrorBad string // harness self-check: its mirror of the events queue disagrees with what was dequeued
+}
+
+// qent mirrors one queued event: its kind and what the harness knew when it was injected.
+type qent struct {
+	kind int
+	gen  int // successful TCP-up commits so far
+	sel  int // successful Select commits so far
 }
 
 // execSup runs an action list on the real supervisor. The run goroutine is played by the harness:
@@ -47,18 +65,29 @@ func execSup(acts []string) (o supObs) {
 			o.panicked = p
 		}
 	}()
-	v := hsms.VerifNewSupervisor()
+	v, rt := newDrivenSupervisor()
 	var pendStart, pendRecv int = -1, -1
-	runIdle := true // model pc
+	runIdle := true   // model pc
+	var mirror []qent // the events queue, as injected
+	ghostGen, ghostSel := 0, 0
+	push := func(kind int) { mirror = append(mirror, qent{kind, ghostGen, ghostSel}) }
+	pop := func() (e qent) {
+		if len(mirror) > 0 {
+			e, mirror = mirror[0], mirror[1:]
+		}
+		return e
+	}
 	env := func(a string) {
 		switch a {
 		case "cC":
 			if pendStart < 0 && v.CASOnly(hsms.NotConnectedState, hsms.NotSelectedState) {
 				pendStart = 0
+				ghostGen++
 			}
 		case "cS":
 			if pendRecv < 0 && v.CASOnly(hsms.NotSelectedState, hsms.SelectedState) {
 				pendRecv = 1
+				ghostSel++
 			}
 		case "cL":
 			if pendRecv < 0 && v.CASOnly(hsms.SelectedState, hsms.NotSelectedState) {
@@ -67,19 +96,32 @@ func execSup(acts []string) (o supObs) {
 		case "iS":
 			if pendStart >= 0 {
 				v.Inject(uint8(pendStart))
+				push(pendStart)
 				pendStart = -1
 			}
 		case "iR":
 			if pendRecv >= 0 {
 				v.Inject(uint8(pendRecv))
+				push(pendRecv)
 				pendRecv = -1
 			}
-		case "jD":
-			v.Inject(3)
-		case "jT":
-			v.Inject(5)
+		case "jD": // TCPDown: an evDisconnect tagged with the current generation
+			if rt != nil {
+				rt.TCPDown(errC05Drop)
+			} else {
+				v.InjectDisconnect()
+			}
+			push(3)
+		case "jT": // T7Expired: an evT7Timeout tagged with the current NotSelected dwell
+			if rt != nil {
+				rt.T7Expired()
+			} else {
+				v.InjectT7()
+			}
+			push(5)
 		case "jX":
 			v.Inject(4)
+			push(4)
 		case "dv":
 			o.deliv = append(o.deliv, v.DrainNotifications(1)...)
 		}
@@ -102,20 +144,43 @@ func execSup(acts []string) (o supObs) {
 			if k+1 < len(seq) {
 				switch {
 				case a == "cC" && seq[k+1] == "iS" && pendStart < 0:
-					before := v.State()
-					ok := v.CommitConnected()
+					ok := v.State() == hsms.NotConnectedState // single-threaded here: the CAS succeeds iff this holds
+					if rt != nil {
+						rt.TCPUp(nil)
+					} else {
+						ok = v.CommitConnected()
+					}
+					if ok {
+						ghostGen++
+						push(0)
+					}
 					rec(false)
-					_ = before
-					_ = ok
 					rec(false)
 					fused = true
 				case a == "cS" && seq[k+1] == "iR" && pendRecv < 0:
-					v.CommitSelected()
+					var ok bool
+					if rt != nil {
+						ok = rt.CommitSelected()
+					} else {
+						ok = v.CommitSelected()
+					}
+					if ok {
+						ghostSel++
+						push(1)
+					}
 					rec(false)
 					rec(false)
 					fused = true
 				case a == "cL" && seq[k+1] == "iR" && pendRecv < 0:
-					v.CommitSelectLost()
+					ok := v.State() == hsms.SelectedState
+					if rt != nil {
+						rt.SelectLost()
+					} else {
+						ok = v.CommitSelectLost()
+					}
+					if ok {
+						push(2)
+					}
 					rec(false)
 					rec(false)
 					fused = true
@@ -155,11 +220,28 @@ func execSup(acts []string) (o supObs) {
 			// event available: one real step with the window inside
 			hookRan := false
 			nReact := len(v.Reactions)
+			head := pop()
+			var stBeforeStore hsms.ConnState
 			evDone, _ := v.StepNext(func() {
 				hookRan = true
 				rec(true)                            // state after the load (unchanged)
 				envSeq(window, func() { rec(true) }) // model: runLoad while loaded is a no-op
+				stBeforeStore = v.State()
 			})
+			if int(evDone) != head.kind && o.mirrorBad == "" {
+				o.mirrorBad = fmt.Sprintf("the supervisor dequeued event kind %d where the harness's mirror of the queue has %d", evDone, head.kind)
+			}
+			if hookRan && int(evDone) == head.kind {
+				acted := v.State() != stBeforeStore || len(v.Reactions) > nReact
+				if evDone == 3 && head.gen < ghostGen && acted && o.staleDisc == "" {
+					o.staleDisc = fmt.Sprintf("a disconnect reported in TCP generation %d was processed in generation %d and moved State() %d -> %d (reactions fired: %d)",
+						head.gen, ghostGen, stBeforeStore, v.State(), len(v.Reactions)-nReact)
+				}
+				if evDone == 5 && head.sel < ghostSel && acted && o.staleT7 == "" {
+					o.staleT7 = fmt.Sprintf("a T7 expiry reported before Select commit #%d was processed after it and moved State() %d -> %d (reactions fired: %d)",
+						ghostSel, stBeforeStore, v.State(), len(v.Reactions)-nReact)
+				}
+			}
 			if !hookRan {
 				// closed latch: the event was discarded before the load; the window actions run afterwards
 				rec(true)
@@ -167,6 +249,7 @@ func execSup(acts []string) (o supObs) {
 					// further loads while closed keep discarding
 					if v.Queued() > 0 {
 						v.StepNext(nil)
+						pop()
 					}
 					rec(true)
 				})
@@ -213,7 +296,40 @@ func execSup(acts []string) (o supObs) {
 	o.queued = v.Queued()
 	o.buf = v.DrainNotifications(-1)
 	o.react = v.Reactions
+	o.gen, o.dwell = v.Generation(), v.Dwell()
 	return o
+}
+
+var errC05Drop = fmt.Errorf("c05: scripted drop")
+
+// c05Via is a never-opened real connection behind which every schedule's goroutine-less supervisor is
+// installed, so that the injectors and the fused commits go through the connection's own TransportRuntime
+// methods (TCPDown / T7Expired / TCPUp / CommitSelected / SelectLost) — their wiring to the supervisor (which
+// injector, which tag) is then part of what is compared with the model.
+var c05Via struct {
+	once sync.Once
+	conn hsms.Connection
+}
+
+func newDrivenSupervisor() (*hsms.VerifSupervisor, hsms.TransportRuntime) {
+	c05Via.once.Do(func() {
+		cfg, err := hsmsss.NewConfig("127.0.0.1", 5000, hsmsss.WithActive(),
+			hsmsss.WithDialer(func(ctx context.Context, network, addr string) (net.Conn, error) {
+				return nil, fmt.Errorf("c05: never dialled")
+			}))
+		if err != nil {
+			return
+		}
+		if conn, err := hsmsss.New(cfg); err == nil && hsms.VerifLifeProbe(conn) {
+			c05Via.conn = conn
+		}
+	})
+	if c05Via.conn != nil {
+		if v, rt, ok := hsms.VerifNewSupervisorBehind(c05Via.conn); ok {
+			return v, rt
+		}
+	}
+	return hsms.VerifNewSupervisor(), nil
 }
 
 func pairsStr(l [][2]hsms.ConnState) string {
@@ -237,8 +353,8 @@ func (o supObs) String() string {
 	if o.closed {
 		cl = 1
 	}
-	fmt.Fprintf(&sb, " L=%d closed=%d dropped=%d q=%d pc=i deliv=%s buf=%s react=%s", o.L, cl, o.dropped, o.queued,
-		pairsStr(o.deliv), pairsStr(o.buf), pairsStr(o.react))
+	fmt.Fprintf(&sb, " L=%d closed=%d dropped=%d q=%d pc=i deliv=%s buf=%s react=%s gen=%d dwell=%d", o.L, cl, o.dropped, o.queued,
+		pairsStr(o.deliv), pairsStr(o.buf), pairsStr(o.react), o.gen, o.dwell)
 	return sb.String()
 }
 
@@ -283,6 +399,19 @@ func supOracles(c *Ctx, acts []string, o supObs) {
 	}
 	if o.badReact != "" {
 		c.Violate("property", "disconnect-reaction-without-state-change", o.badReact, replay)
+	}
+	// "never undone or replayed by the library's later internal processing of an earlier event": a disconnect
+	// of an earlier TCP generation must not touch a later one; "never disconnected by a T7 timeout armed
+	// before it was selected" (GoSecs.Props.C05.disconnect_never_disturbs_later_generation /
+	// t7_never_disconnects_later_dwell, on every schedule).
+	if o.mirrorBad != "" {
+		c.Violate("correspondence", "harness-queue-mirror", o.mirrorBad, replay)
+	}
+	if o.staleDisc != "" {
+		c.Violate("property", "f7-stale-disconnect", o.staleDisc, replay)
+	}
+	if o.staleT7 != "" {
+		c.Violate("property", "stale-t7", o.staleT7, replay)
 	}
 	prev := 0
 	for i, s := range o.sts {
@@ -398,13 +527,72 @@ func runC05(c *Ctx) {
 	}
 	// the kernel-checked counterexample schedules (Props/C05) and a few hand-written ones
 	named := map[string]string{
-		"f4-close-then-commit":     "jX rl rc cC",
-		"f7-stale-disconnect":      "cC iS cS iR rl rc rl rc jD jD rl rc cC iS cS iR rl rc",
-		"stale-t7":                 "cC iS rl rc jT cS iR cL iR rl rc",
-		"t7-tie":                   "cC iS rl rc jT rl cS rc",
-		"deselect-reselect":        "cC iS cS iR rl rc rl rc cL iR cS iR rl rc rl rc",
-		"pipelined-deselect":       "cC iS rl rc cS iR cL iR rl rc rl rc",
-		"pipelined-deselect-split": "cC iS rl rc cS iR cL rl iR rc rl rc",
+		"f4-close-then-commit": "jX rl rc cC",
+		"f7-stale-disconnect":  "cC iS cS iR rl rc rl rc jD jD rl rc cC iS cS iR rl rc",
+		"stale-t7":             "cC iS rl rc jT cS iR cL iR rl rc",
+		// variants of the two former counterexamples (same defect classes, same signatures)
+		"stale-disconnect-after-t7": "cC iS rl rc jT jD rl rc cC iS cS iR rl rc",             // T7 took generation N down; N's late disconnect meets N+1
+		"stale-disconnect-window":   "cC iS cS iR rl rc rl rc jD jD rl rc rl cC iS cS iR rc", // the reconnect commits inside the stale event's load/store window
+		"stale-t7-reconnect":        "cC iS rl rc jD jT rl rc cC iS rl rc rl rc",             // N's T7 expiry meets N+1's fresh dwell
+		"stale-t7-window":           "cC iS rl rc jT rl cS iR cL iR rc",                      // select + deselect inside the T7's load/store window
+		"current-disconnect":        "cC iS cS iR rl rc rl rc jD rl rc",                      // kept behaviour: the generation's own disconnect applies
+		"current-t7":                "cC iS rl rc cS iR cL iR rl rc rl rc jT rl rc",          // kept behaviour: the second dwell's own T7 applies
+		"t7-tie":                    "cC iS rl rc jT rl cS rc",
+		"deselect-reselect":         "cC iS cS iR rl rc rl rc cL iR cS iR rl rc rl rc",
+		"pipelined-deselect":        "cC iS rl rc cS iR cL iR rl rc rl rc",
+		"pipelined-deselect-split":  "cC iS rl rc cS iR cL rl iR rc rl rc",
+	}
+	// (run before the enumerated lists, so that a returning defect is reported with its canonical schedule)
+	// Replays of the named schedules on the real supervisor: regressions of repaired findings (reported under
+	// the finding's stable signature `what` if the defect returns) and kept-behaviour checks.
+	check := func(name string, bad func(o supObs) (bool, string)) { checkAs(c, named, name, name, bad) }
+	checkW := func(name, what string, bad func(o supObs) (bool, string)) { checkAs(c, named, name, what, bad) }
+	// f4-close-then-commit is no longer a violation by itself: Close() publishes NotConnected after its
+	// joins (closeReturn in the model); the window schedule is kept for the correspondence only, and the
+	// history mode below checks State() after Close on real connections.
+	check("f4-close-then-commit", func(o supObs) (bool, string) { return false, "" })
+	// Findings F7 / F7b, repaired (GoSecs.Props.C05.f7_schedule_repaired / stale_t7_schedule_repaired and the
+	// every-schedule theorems): the stale event must leave the later generation / dwell alone. A return of
+	// the defect is reported under the finding's signature.
+	last := func(o supObs) int { return o.sts[len(o.sts)-1] }
+	check("f7-stale-disconnect", func(o supObs) (bool, string) {
+		n := len(o.sts)
+		return o.sts[n-3] == 2 && o.sts[n-1] != 2, "a second disconnect event of the previous generation, processed late, moved the next generation's committed Selected session to NotConnected"
+	})
+	checkW("stale-disconnect-after-t7", "f7-stale-disconnect", func(o supObs) (bool, string) {
+		return last(o) != 2, "a disconnect of a generation that T7 had already taken down, processed late, disconnected the next generation's committed Selected session"
+	})
+	checkW("stale-disconnect-window", "f7-stale-disconnect", func(o supObs) (bool, string) {
+		return last(o) != 2, "a second disconnect of the previous generation disconnected the next generation, which committed inside the event's load/store window"
+	})
+	check("stale-t7", func(o supObs) (bool, string) {
+		return last(o) != 1 && contains(o.sts, 2), "a T7 expiry queued before the session was selected disconnected it after a later deselect"
+	})
+	checkW("stale-t7-reconnect", "stale-t7", func(o supObs) (bool, string) {
+		return last(o) != 1, "a T7 expiry of the previous generation's dwell disconnected the next generation at the start of its own dwell"
+	})
+	checkW("stale-t7-window", "stale-t7", func(o supObs) (bool, string) {
+		return last(o) != 1 && contains(o.sts, 2), "a T7 expiry disconnected a session that was selected and deselected inside the event's load/store window"
+	})
+	// … and the repair must not remove the behaviour: an event of the CURRENT generation / dwell still applies.
+	checkW("current-disconnect", "current-generation-disconnect-ignored", func(o supObs) (bool, string) {
+		return last(o) != 0 || len(o.react) == 0 || o.react[len(o.react)-1][1] != hsms.NotConnectedState,
+			"the disconnect of the current generation did not take it to NotConnected with the teardown reaction"
+	})
+	checkW("current-t7", "current-dwell-t7-ignored", func(o supObs) (bool, string) {
+		return last(o) != 0 || len(o.react) == 0 || o.react[len(o.react)-1][1] != hsms.NotConnectedState,
+			"the T7 expiry of the current NotSelected dwell (after a deselect) did not disconnect"
+	})
+	check("t7-tie", func(o supObs) (bool, string) {
+		return o.sts[len(o.sts)-1] != 2, "T7 store clobbered a Select committed between the supervisor's load and store"
+	})
+	check("deselect-reselect", func(o supObs) (bool, string) {
+		return o.sts[len(o.sts)-1] != 2, "stale select-lost clobbered a re-committed Selected session"
+	})
+	for _, nm := range []string{"pipelined-deselect", "pipelined-deselect-split"} {
+		check(nm, func(o supObs) (bool, string) {
+			return o.sts[len(o.sts)-1] != 1, "Select.req+Deselect.req pipelined: the stale select-accepted event re-stored Selected after the Deselect commit (State() ends Selected, the peer was told the deselect succeeded)"
+		})
 	}
 	var lines []string
 	for _, l := range lists {
@@ -451,46 +639,31 @@ func runC05(c *Ctx) {
 	c.Res.Traces = len(lists)
 	c.Res.Exhaustive = false
 	c.Note("exhaustive up to length %d (%d well-formed lists), then %d random lists", maxLen, nEx, len(lists)-nEx)
+	if _, rt := newDrivenSupervisor(); rt != nil {
+		c.Note("injectors and fused commits driven through a real connection's TransportRuntime methods")
+	} else {
+		c.Note("could not build a connection to drive the supervisor through: injectors called on the supervisor directly")
+	}
 
-	// Replays of the counterexample theorems on the real supervisor (known findings when listed).
-	check := func(name string, bad func(o supObs) (bool, string)) {
-		acts := strings.Fields(named[name])
-		o := execSup(acts)
-		c.Count("named|"+name, true)
-		c.Stat("named-schedule")
-		if c.Lean != nil {
-			if m := c.Lean.Ask("sup.run " + named[name]); m != o.String() {
-				c.Violate("correspondence", "supervisor-differs-from-model", "named schedule "+name+": real "+o.String()+" model "+m, map[string]any{"actions": named[name]})
-			}
-		}
-		if isBad, why := bad(o); isBad {
-			c.Violate("property", name, why, map[string]any{"actions": named[name], "observed": o.String(), "theorem": "GoSecs.Props.C05.counterexample_*"})
-		}
-	}
-	// f4-close-then-commit is no longer a violation by itself: Close() publishes NotConnected after its
-	// joins (closeReturn in the model); the window schedule is kept for the correspondence only, and the
-	// history mode below checks State() after Close on real connections.
-	check("f4-close-then-commit", func(o supObs) (bool, string) { return false, "" })
-	check("f7-stale-disconnect", func(o supObs) (bool, string) {
-		n := len(o.sts)
-		return o.sts[n-3] == 2 && o.sts[n-1] == 0, "a second disconnect event of the previous generation, processed late, moved the next generation's committed Selected session to NotConnected"
-	})
-	check("stale-t7", func(o supObs) (bool, string) {
-		return o.sts[len(o.sts)-1] == 0 && contains(o.sts, 2), "a T7 expiry queued before the session was selected disconnected it after a later deselect"
-	})
-	check("t7-tie", func(o supObs) (bool, string) {
-		return o.sts[len(o.sts)-1] != 2, "T7 store clobbered a Select committed between the supervisor's load and store"
-	})
-	check("deselect-reselect", func(o supObs) (bool, string) {
-		return o.sts[len(o.sts)-1] != 2, "stale select-lost clobbered a re-committed Selected session"
-	})
-	for _, nm := range []string{"pipelined-deselect", "pipelined-deselect-split"} {
-		check(nm, func(o supObs) (bool, string) {
-			return o.sts[len(o.sts)-1] != 1, "Select.req+Deselect.req pipelined: the stale select-accepted event re-stored Selected after the Deselect commit (State() ends Selected, the peer was told the deselect succeeded)"
-		})
-	}
 	if c05Extra != nil {
 		c05Extra(c)
+	}
+}
+
+// checkAs replays one named schedule on the real supervisor, compares it with the model, and reports a bad
+// outcome as a property violation with the stable signature `what`.
+func checkAs(c *Ctx, named map[string]string, name, what string, bad func(o supObs) (bool, string)) {
+	acts := strings.Fields(named[name])
+	o := execSup(acts)
+	c.Count("named|"+name, true)
+	c.Stat("named-schedule")
+	if c.Lean != nil {
+		if m := c.Lean.Ask("sup.run " + named[name]); m != o.String() {
+			c.Violate("correspondence", "supervisor-differs-from-model", "named schedule "+name+": real "+o.String()+" model "+m, map[string]any{"actions": named[name]})
+		}
+	}
+	if isBad, why := bad(o); isBad {
+		c.Violate("property", what, why, map[string]any{"schedule": name, "actions": named[name], "observed": o.String(), "theorems": "GoSecs.Props.C05 (stale events / regression schedules)"})
 	}
 }
 
